@@ -29,7 +29,12 @@ open Quic.Proofs.Lemmas
     the hypothesis that wherever that branch is taken `w_est` (in bytes) is at least the minimum
     window. In exact arithmetic the branch condition `w_cubic < w_est` implies it
     (`w_cubic(t) ≥ cwnd_start ≥ 2` datagrams for `t ≥ 0`); in f32 it is not evident, and
-    tools/gen/congestion.py hunts for the excluded point on the real code. -/
+    tools/gen/congestion.py hunts for the excluded point on the real code (`near_min_history`:
+    losses at 2..3 datagrams of window, recovery exits at t = 0, tiny/huge RTTs, MTU changes). Nothing
+    found so far: no `cc:cubic:cwnd-below-min` in 3·10^5 generated ops per run; an f32 emulation of the
+    first congestion-avoidance ack (t = 0) over every mds in 1200..9000 and every f32 window within
+    ±0.06 bytes of 20/7·mds (the only place where `0.7·w_max` is within rounding error of 2) found
+    `w_cubic(0)` at most one ulp below 2.0 and never below `w_est(0)` when that is below 2.0. -/
 theorem cubic_cwnd_ge_min_partial (mds : Nat) (hm : mds ≤ Cubic.u16Max) (h : List (Cubic.Op × Cubic.Oracle))
     (s : Cubic.State) (hw : Cubic.Along Cubic.WEstOk (Cubic.init mds) h)
     (hr : Cubic.run (Cubic.init mds) h = some s) :
@@ -134,9 +139,23 @@ example : (Cubic.run { Cubic.init 1200 with inflight := 6000, lastSent := some 1
      (.ecn 22, { decrease := 100 }), (.ack 10 1200 23, {}), (.lost 1200 false 24, { decrease := 1 })]).map
       (fun s => (s.w, s.phase)) = some (8400, .recovery 20 true) := by decide
 
+/-- Remark (not part of C10's text): the reaction does not look at the lost packet's send time. Once the
+    period was ended by an ack for a packet sent after its start, the loss of a packet that was sent
+    BEFORE that start reduces the window a second time (12000 → 8400 → 5880 here), where RFC 9002
+    B.6 `InCongestionRecovery(sent_time)` would not react. The two reductions are at least one round
+    trip apart. tools/gen/congestion.py counts these (`rfc_b6_deviations`, evidence only). -/
+example : (Cubic.run { Cubic.init 1200 with inflight := 6000, lastSent := some 10, underUtilized := false }
+    [(.lost 1200 false 20, { decrease := 8400 }), (.sent 1200 30 (some false), {}), (.ack 30 1200 40, { atMax := true }),
+     (.lost 1200 false 41, { decrease := 5880 })]).map (·.w) = some 5880 := by decide
+
 /-- The window does not grow while the sender is application-limited: once a send left the window
     application-limited and under-utilised (`under_utilized`, see `cubic_under_utilized_after_send`),
-    no sequence of acks (RTT updates, discards) changes the window until the next send. -/
+    no sequence of acks (RTT updates, discards) changes the window until the next send.
+    "Application-limited" is the code's notion: `app_limited` as reported by the transport AND
+    `is_congestion_window_under_utilized()` (more than 3 datagrams of room; in slow start additionally
+    less than half the window in use). A send flagged `app_limited` that leaves less room than that
+    does not stop growth (deliberate, kMaxBurstBytes of Chromium); the python oracle uses the same
+    definition. -/
 theorem cubic_no_growth_when_app_limited (s s' : Cubic.State) (h : List (Cubic.Op × Cubic.Oracle))
     (hu : s.underUtilized = true) (hq : ∀ x ∈ h, Cubic.Quiet x.1) (hr : Cubic.run s h = some s') :
     s'.w = s.w ∧ s'.underUtilized = true :=
